@@ -7,12 +7,13 @@ spec/Merkle.tla, table "c03"; driver vd-merkle c03.
      with common.ComputeMerkleRoot; over the hashes of real transactions with Block.RebuildMerkleRoot; and
      Block.Deserialization must accept a block carrying exactly that root and refuse neighbouring roots / a flipped bit.
 """
-from checks.merkle_common import table, cfg_text, summary
+from checks.merkle_common import table, cfg_text, summary, load_replay
 
 
 def run(ctx):
     q = ctx.quick
     b = ctx.build("vd-merkle")
+    load_replay(ctx)
     n = 33 if q else 513
     sets = 4 if q else 50
     total = distinct = 0
